@@ -71,6 +71,37 @@ def letter_chars(thorough):
     return ''.join(out) + alphabet.QUICK['nonascii-letter']
 
 
+@functools.lru_cache(maxsize=None)
+def value_preserving(thorough):
+    """ASCII character -> non-ASCII characters that carry the same value (digits: same decimal/digit/
+    numeric value; letters: upper()/lower()/NFKC/NFKD image equals the letter)."""
+    out = {}
+    classes = numeric_classes()
+    for beh, chars in classes.items():
+        for c in (chars if thorough else chars[:1]):
+            vals = {unicodedata.decimal(c, None), unicodedata.digit(c, None)}
+            try:
+                n = unicodedata.numeric(c)
+                if n == int(n):
+                    vals.add(int(n))
+            except (TypeError, ValueError):
+                pass
+            for v in vals:
+                if v is not None and 0 <= v <= 9:
+                    out.setdefault(str(v), []).append(c)
+    for c in letter_chars(True):
+        imgs = {c.upper(), c.lower(), unicodedata.normalize('NFKC', c), unicodedata.normalize('NFKD', c)[:1]}
+        for im in imgs:
+            if len(im) == 1 and im.isascii() and im.isalpha():
+                out.setdefault(im.upper(), []).append(c)
+                out.setdefault(im.lower(), []).append(c)
+    if not thorough:
+        for k in list(out):
+            if k.isalpha():
+                out[k] = sorted(set(out[k]), key=lambda ch: (class_of(ch), ord(ch)))[:6]
+    return {k: sorted(set(v)) for k, v in out.items()}
+
+
 def plan(ctx):
     return [(name, ctx['tier']) for name in core.modules() if name not in EXEMPT]
 
@@ -129,6 +160,24 @@ def work(item):
                         n += 1
                         a = _check(res, name, m, x, (1, dc, base))
                         acc += a
+    # value-preserving substitutions on the E2 valid set (only a character with the same value can pass a
+    # checksum, and corpus seeds may not have the right character at the right place)
+    from .. import e2
+    vp = value_preserving(not quick)
+    values, st = e2.valid_set(name, m, 'quick', nseeds=3 if quick else 8, cap=40 if quick else 300)
+    tr += st['tried']
+    for v in values:
+        ln = len(v)
+        for i, ch in enumerate(v):
+            for c in vp.get(ch, ()):
+                x = v[:i] + c + v[i + 1:]
+                tr += 1
+                if x in seen:
+                    continue
+                seen.add(x)
+                n += 1
+                acc += _check(res, name, m, x, (1, 'sub:%s@%s' % (class_of(c), _field(i, ln)), v))
+    res['extra']['e2_valid_numbers'] = len(values)
     # ride on the E1 states too (other classes, short strings)
     states, transitions, _sv = e1.module_states(name, 'quick', nseeds=2)
     for x, dev in states.items():
